@@ -41,7 +41,11 @@ def job_storage(job):
     out = {'evaluations': 0, 'failures': [], 'samples': [], 'configs': 0}
     pats = set()
     for cfg in job['configs']:
-        alg = make_algebra(cfg)
+        try:
+            alg = make_algebra(cfg)
+        except Exception as _e:
+            out['failures'].append({'config': cfg, 'what': 'constructing an admissible algebra raised', 'error': type(_e).__name__ + ': ' + str(_e)[:150]})
+            continue
         fr = O.Frame(alg)
         out['configs'] += 1
         N = 2 ** alg.d
@@ -106,7 +110,11 @@ def job_history(job):
     hist_count = 0
     for cfg in job['configs']:
         for h in range(cfg.get('histories', 5)):
-            alg = make_algebra(cfg)
+            try:
+                alg = make_algebra(cfg)
+            except Exception as _e:
+                out['failures'].append({'config': cfg, 'what': 'constructing an admissible algebra raised', 'error': type(_e).__name__ + ': ' + str(_e)[:150]})
+                continue
             fr = O.Frame(alg)
             out['configs'] += 1
             N = 2 ** alg.d
@@ -211,7 +219,11 @@ def job_count(job):
         import numpy as np
         import sympy
         for cfg in job['configs']:
-            alg = make_algebra(cfg)
+            try:
+                alg = make_algebra(cfg)
+            except Exception as _e:
+                out['failures'].append({'config': cfg, 'what': 'constructing an admissible algebra raised', 'error': type(_e).__name__ + ': ' + str(_e)[:150]})
+                continue
             out['configs'] += 1
             N = 2 ** alg.d
 
@@ -272,7 +284,11 @@ def job_typeid(job):
     out = {'evaluations': 0, 'failures': [], 'samples': [], 'configs': 0}
     n = 0
     for cfg in job['configs']:
-        alg = make_algebra(cfg)
+        try:
+            alg = make_algebra(cfg)
+        except Exception as _e:
+            out['failures'].append({'config': cfg, 'what': 'constructing an admissible algebra raised', 'error': type(_e).__name__ + ': ' + str(_e)[:150]})
+            continue
         out['configs'] += 1
         N = 2 ** alg.d
         maxlen = cfg.get('maxlen', N)
